@@ -641,7 +641,13 @@ pub fn gen_defer(sim: &mut Sim) -> Program {
 
 /// C25: shared state held by a handoff (`fold -> singleton()`, `reduce -> optional()`,
 /// `handoff()`), read and updated through `#{group} [mut] name` references from 2-4 access groups.
-pub fn gen_refs(sim: &mut Sim) -> Program {
+///
+/// Shape restrictions (all are rustc borrow-check limits of the generated code, not semantics):
+/// two reference holders of the same state may only share a subgraph if both only read, so every
+/// holder is fed through its own `handoff()` and ends in its own sink, except readers of one group.
+/// `shared_consumer`: the state's pipe consumer and a reference holder are merged by a `union`
+/// (they then share a subgraph) — kept as a separate program kind.
+pub fn gen_refs(sim: &mut Sim, shared_consumer: bool) -> Program {
     let mut g = G::new(sim);
     let n_src = g.sim.choose("n_chans", 2, 3) as usize;
     let srcs: Vec<Open> = (0..n_src).map(|_| g.new_source()).collect();
@@ -653,8 +659,7 @@ pub fn gen_refs(sim: &mut Sim) -> Program {
         taps.insert(k, b);
         a
     };
-    let n_states = g.sim.choose("n_states", 1, 2) as usize;
-    let mut outs: Vec<Open> = vec![];
+    let n_states = if shared_consumer { 1 } else { g.sim.choose("n_states", 1, 2) as usize };
     for _ in 0..n_states {
         // the producer of the state: a same-tick pipeline of depth 0-3
         let k = g.sim.choose("state_src", 0, n_src as u64 - 1) as usize;
@@ -668,7 +673,8 @@ pub fn gen_refs(sim: &mut Sim) -> Program {
                 g.stateless_on(feeder)
             };
         }
-        let hoff = match g.sim.weighted("state_kind", &[4, 3, 2]) {
+        let kind_w: [u64; 3] = if shared_consumer { [0, 3, 2] } else { [4, 3, 2] };
+        let hoff = match g.sim.weighted("state_kind", &kind_w) {
             0 => {
                 let p = pers(g.sim);
                 let f = g.f_ord(feeder.order, cl::N_FOLD_COMM, cl::N_FOLD);
@@ -689,32 +695,55 @@ pub fn gen_refs(sim: &mut Sim) -> Program {
         };
         // access groups
         let n_groups = g.sim.choose("n_groups", 2, 4) as u32;
+        let mut holder_outs: Vec<Open> = vec![];
         for grp in 0..n_groups {
             let writer = g.sim.flip("writer", 2, 5);
-            let n_ops = if writer { 1 } else { g.sim.choose("readers", 1, 2) };
-            for _ in 0..n_ops {
-                let k = g.sim.choose("ref_src", 0, n_src as u64 - 1) as usize;
-                let mut inp = tap(&mut g, k);
-                for _ in 0..g.sim.choose("ref_pre", 0, 2) {
-                    inp = g.stateless_on(inp);
-                }
-                let f = g.f(cl::N_REF);
+            let k = g.sim.choose("ref_src", 0, n_src as u64 - 1) as usize;
+            let mut inp = tap(&mut g, k);
+            for _ in 0..g.sim.choose("ref_pre", 0, 2) {
+                inp = g.stateless_on(inp);
+            }
+            // own subgraph for the holder(s) of this group
+            let iso = g.push(Op::HoffVec, vec![inp.src]);
+            let inp = Open { src: Src { node: iso, port: 0 }, order: inp.order, single: false };
+            if writer {
                 // a writer's input order is specified (Seq): the values it sees are then determined
-                let o = g.node_on(Op::RefMap { target: hoff, group: grp, write: writer, f }, inp, inp.order, false);
-                outs.push(o);
+                let f = g.f(cl::N_REF);
+                let o = g.node_on(Op::RefMap { target: hoff, group: grp, write: true, f }, inp, inp.order, false);
+                holder_outs.push(o);
+            } else if g.sim.flip("two_readers", 1, 3) {
+                // two readers of one group share a subgraph (both borrows are shared)
+                let (a, b) = g.tee2(inp);
+                for x in [a, b] {
+                    let f = g.f(cl::N_REF);
+                    let o = g.node_on(Op::RefMap { target: hoff, group: grp, write: false, f }, x, x.order, false);
+                    holder_outs.push(o);
+                }
+            } else {
+                let f = g.f(cl::N_REF);
+                let o = g.node_on(Op::RefMap { target: hoff, group: grp, write: false, f }, inp, inp.order, false);
+                holder_outs.push(o);
             }
         }
-        // optionally the state also flows on through a pipe (after every reference holder)
-        if g.sim.flip("state_consumer", 1, 2) {
-            outs.push(Open { src: Src { node: hoff, port: 0 }, order: hoff_order, single: false });
+        let state_out = Open { src: Src { node: hoff, port: 0 }, order: hoff_order, single: false };
+        if shared_consumer {
+            // the pipe consumer of the state is a union that also takes a holder's output
+            let k = g.sim.choose("shared_with", 0, holder_outs.len() as u64 - 1) as usize;
+            let h = holder_outs.remove(k);
+            let u = g.node2(Op::Union, state_out, h, Order::Bag, false);
+            g.sink(u);
+        } else if g.sim.flip("state_consumer", 1, 2) {
+            // optionally the state also flows on through a pipe (after every reference holder)
+            g.sink(state_out);
+        }
+        for o in holder_outs {
+            g.sink(o);
         }
     }
-    for t in taps {
-        outs.push(t);
-    }
-    g.open = outs;
+    // what is left of the sources
+    g.open = taps;
     g.close();
-    let mut p = g.finish("refs");
+    let mut p = g.finish(if shared_consumer { "refs_shared_consumer" } else { "refs" });
     p.n_refs = p.ref_ids().len();
     p
 }
